@@ -4,14 +4,14 @@ import os
 
 ID = "C20"
 LEVEL = "proof"
-# harness.cpp is compiled as 6 translation units in parallel (at most 4 at a time) by props/C20/pcxx.py
+# harness.cpp is compiled as 7 translation units in parallel (at most 4 at a time) by props/C20/pcxx.py
 _PCXX = os.path.join(os.path.dirname(os.path.abspath(__file__)), "pcxx.py")
 HARNESSES = [{"name": "main", "src": "harness.cpp", "compiler": _PCXX,
-              "flags": ["-O1", "-DTETL_ENABLE_CONTRACT_CHECKS=1", "-DC20_NPARTS=6"]},
+              "flags": ["-O1", "-DTETL_ENABLE_CONTRACT_CHECKS=1", "-DC20_NPARTS=7"]},
              # thorough tier: the same cases through an AddressSanitizer + UndefinedBehaviorSanitizer build (a report aborts
              # the case: `crash`); catches use of a destroyed target / dangling reference that the legs cannot print
              {"name": "san", "src": "harness.cpp", "compiler": _PCXX, "thorough_only": True,
-              "flags": ["-O1", "-DTETL_ENABLE_CONTRACT_CHECKS=1", "-DC20_NPARTS=6",
+              "flags": ["-O1", "-DTETL_ENABLE_CONTRACT_CHECKS=1", "-DC20_NPARTS=7",
                         "-fsanitize=address,undefined", "-fno-sanitize-recover=all"]}]
 
 RULE = ("the complete value-category tables (get / pair get / forward / forward_like / invoke on function objects, "
@@ -26,7 +26,11 @@ RULE = ("the complete value-category tables (get / pair get / forward / forward_
         "for 1 + 1 wrappers x 4 palettes, every conversion followed by every operation and a second conversion, random to depth 12 "
         "with up to 2 + 2 wrappers; every history is "
         "followed by probes (bool and two calls per wrapper). The language rules of the model (op lang) over their whole finite "
-        "domain against the compiler. non-trivial = distinct case line whose impl leg starts "
+        "domain against the compiler. Object identity under an overloaded unary operator& (op amp): three objects whose `&` answers with "
+        "the address of another object (all 27 answer maps), scripts over 26 operations through reference_wrapper / ref / cref / function_ref / "
+        "inplace_function targets / invoke / bind_front / tuple / pair / swap / apply: every observer behind two bound wrappers for every answer "
+        "map, every pair of binding operations + probes, every pair of observers, random scripts up to 24 operations. "
+        "non-trivial = distinct case line whose impl leg starts "
         "with ok / ill")
 
 TRUSTED_BASE = ["reference leg: libstdc++ 12 std::pair/tuple/function/invoke/bind_front/not_fn/reference_wrapper on the same inputs; "
@@ -430,6 +434,73 @@ def gen_values(tier, rng):
     return out
 
 
+# ---- op amp: object identity for a type with an overloaded unary operator& (c20_addr.inc / ModelAddr.v) ----------------
+# amp <a0> <a1> <a2> <v0> <v1> <v2> <n> (<code> <p> <q> <z>)*   --  `&o[i]` yields the address of o[a_i]
+AMP_BINDERS = [(c, k, x) for c in (0, 1) for k in range(2) for x in range(3)] + [(c, k, j) for c in (2, 3) for k in range(2) for j in range(2)]
+AMP_SLOT_OPS = (4, 5, 6, 8, 11, 13, 17, 20)          # operate through wrapper slot p
+AMP_OBJ_OPS = (7, 9, 10, 12, 14, 15, 16, 18, 19, 21)  # operate on object p
+AMP_OBJ2_OPS = (22, 23, 24, 25)                      # objects p and q
+
+
+def amp_line(amp, vals, ops):
+    return "amp %d %d %d %d %d %d %d %s" % (tuple(amp) + tuple(vals) + (len(ops), " ".join("%d %d %d %d" % o for o in ops)))
+
+
+def amp_probes(z):
+    # which object does each slot reach: write through get(), through the conversion, call
+    return [(4, 0, 0, z), (5, 1, 0, z + 1), (6, 0, 0, z + 2), (6, 1, 0, z + 3), (8, 0, 0, z + 4), (8, 1, 0, z + 5)]
+
+
+def gen_amp(tier, rng):
+    out = []
+    quick = tier == "quick"
+    amps = list(itertools.product(range(3), repeat=3))        # all 27 answers of operator&, incl. the ordinary type (0, 1, 2)
+    few = [(0, 1, 2), (2, 2, 2), (1, 2, 0), (1, 0, 2), (0, 0, 0), (2, 1, 0)]
+    vals = (10, 20, -1)
+    # every observer once behind two bound wrappers, for every operator& and every choice of objects
+    for amp in amps:
+        for x in range(3):
+            y = (x + 1) % 3
+            pre = [(0, 0, x, 0), (1, 1, y, 0)]
+            for c in AMP_SLOT_OPS:
+                for k in range(2):
+                    out.append(amp_line(amp, vals, pre + [(c, k, 0, 7 + c)]))
+            for c in AMP_OBJ_OPS:
+                out.append(amp_line(amp, vals, pre + [(c, x, 0, 7 + c)]))
+            for c in AMP_OBJ2_OPS:
+                for q in range(3):
+                    out.append(amp_line(amp, vals, pre + [(c, x, q, 7 + c)]))
+    # every pair of binding operations (ref / constructor / copy / unwrapping ref, every slot and source), then the probes
+    for amp in (few if quick else amps):
+        for b1 in AMP_BINDERS:
+            for b2 in AMP_BINDERS:
+                out.append(amp_line(amp, vals, [b1 + (0,), b2 + (0,)] + amp_probes(5)))
+    # every observer without any wrapper bound (slot operations are skipped), and every pair of observers on one object
+    for amp in few:
+        for c1 in range(4, 26):
+            for c2 in range(4, 26):
+                out.append(amp_line(amp, vals, [(0, 0, 1, 0), (c1, 0, 1, 3), (c2, 0, 2, 4), (3, 1, 0, 0), (c1, 1, 0, 5)]))
+    # random scripts: every code, indices mostly in range, now and then outside (skipped by all legs) / unknown codes
+    for _ in range(3000 if quick else 40000):
+        amp = rng.choice(amps) if rng.random() < 0.8 else (0, 1, 2)
+        v = [rng.randint(-1000, 1000) for _ in range(3)]
+        n = rng.randint(1, 24)
+        ops = []
+        for _ in range(n):
+            c = rng.randrange(26) if rng.random() < 0.97 else rng.choice([26, 31, -1])
+            if rng.random() < 0.06:
+                pq = (rng.randint(-1, 4), rng.randint(-1, 4))
+            elif c in (0, 1):
+                pq = (rng.randrange(2), rng.randrange(3))
+            elif c in (2, 3) or c in AMP_SLOT_OPS:
+                pq = (rng.randrange(2), rng.randrange(2))
+            else:
+                pq = (rng.randrange(3), rng.randrange(3))
+            ops.append((c,) + pq + (rng.randint(-1000, 1000),))
+        out.append(amp_line(amp, v, ops))
+    return out
+
+
 def gen(tier, rng):
     if tier == "search":
         tier = "thorough"
@@ -439,6 +510,7 @@ def gen(tier, rng):
     out += gen_values(tier, rng)
     out += gen_ipf(tier, rng)
     out += gen_ipf_mixed(tier, rng)
+    out += gen_amp(tier, rng)
     return out
 
 
